@@ -73,6 +73,35 @@ func vpH_C15_escape() {
 	vpC15Laws(IRI(o), false)
 }
 
+// owners whose last segment merely begins or ends with a collection name (inboxes, likes2, xinbox,
+// outbox.json): not collection IRIs, and owners like any other
+func vpH_C15_near_names() {
+	n := string(vpC15Names[vpChoice(len(vpC15Names))])
+	x := string([]byte{vpAlnum()})
+	var last string
+	switch vpChoice(4) {
+	case 0:
+		last = n + x
+	case 1:
+		last = x + n
+	case 2:
+		last = n + "." + x
+	default:
+		last = n + "-" + x
+	}
+	o := "https://h.ex"
+	if vpBool() {
+		o += "/users"
+	}
+	o += "/" + last
+	if vpBool() {
+		o += "/"
+	}
+	_, name := Split(IRI(o))
+	vpAssert("near-names/not-split-as-a-collection", name == Unknown)
+	vpC15Laws(IRI(o), false)
+}
+
 func vpT_C15_deep() {
 	o := vpOwner(3, vpBool(), vpBool(), vpChoice(3))
 	vpC15Laws(IRI(o), false)
